@@ -425,6 +425,32 @@ theorem parse_rejects_examples :
       some ⟨"f", [⟨"a", .po, false⟩, ⟨"b", .pk, true⟩, ⟨"args", .va, false⟩, ⟨"c", .ko, false⟩, ⟨"kw", .vk, false⟩]⟩ := by
   decide
 
+/-! ### a stub generated under another `additional_properties_default` than the runtime's (`apd ≠ dflt`) -/
+
+/-- when some class of the MRO declares `_additional_properties`, the `**` clause does not depend on the default the
+    stub generator was given: everything proved for `apd = dflt` carries over -/
+theorem stub_kw_apd_declared (dflt apd : Bool) (c : ClassInfo) (h : (addlLookup (mro c)).isSome = true) :
+    (stubInit dflt apd c).kw = (stubInit dflt dflt c).kw := by
+  simp only [stubInit, stubKw]
+  cases hl : addlLookup (mro c) with
+  | none => simp [hl] at h
+  | some b => rfl
+
+/-- when no class declares it, the stub says `apd` and the constructor follows the runtime default: they agree iff
+    the generator was configured like the runtime -/
+theorem stub_kw_apd_undeclared (dflt apd : Bool) (c : ClassInfo) (h : addlLookup (mro c) = none) :
+    (stubInit dflt apd c).kw = apd ∧ runtimeAdmitsExtra dflt c = dflt := by
+  cases c with
+  | mk d bases =>
+    simp only [mro] at h
+    have hd : d.addl = none := by
+      cases hd : d.addl with
+      | none => rfl
+      | some b => simp [addlLookup, hd] at h
+    constructor
+    · simp [stubInit, stubKw, mro, h]
+    · simp [runtimeAdmitsExtra, setattrAllows, runtimeSig, Stub.sigOf, makeSignature, mro, h, hd]
+
 /-! ### both sides as models of code: the stub generator over the class objects of Sem/Define.lean
 
   `Sem/StubDefine.lean` reads `_field_by_name`, `_constants`, `_required` and the inherited `_additional_properties`
